@@ -423,7 +423,11 @@ def study_dirs_extension(ck, tier, seed):
             real_n = [real[k] if k < len(real) else dict(exists=False, hdr="none", cases="none", pp="none", completed=False) for k in range(len(want))]
             st_ok = (step["status"] == inc["end"]) or (inc["end"] == "raised" and step["status"].startswith("raised"))
             if real_n != want or not st_ok or any(d["exists"] for d in real[len(want):]):
-                ck.violation({"clause": "study_dirs_conformance", "end": inc["end"], "kill": str(inc["kill"])},
+                # C18 is about cases (none lost, none redone) and completion: a directory whose cases / completion state differs from the
+                # model, or an incarnation that ends differently, violates it; header, post-processing directory and sub-directory
+                # choice alone are specification extension
+                relevant = (not st_ok) or any(a["cases"] != b["cases"] or a["completed"] != b["completed"] for a, b in zip(real_n, want))
+                (ck.violation if relevant else ck.extension)({"clause": "study_dirs_conformance", "end": inc["end"], "kill": str(inc["kill"])},
                              "directory life cycle: incarnation %d of %s (force_restart=%s, force_post_process_rerun=%s, kill at %s): real status %s, directories %s; StudyDirs expects %s, %s" % (
                                  j + 1, sc["id"], inc["fr"], inc["ppr"], inc["kill"], step["status"], real, inc["end"], want), {"scenario": dv, "result": res})
                 break
